@@ -88,6 +88,10 @@ func c13Handler(kind Kind, rec *c13Recorder, opts ...connect.HandlerOption) *con
 // c13HandlerEarly: with early set, the handler answers after the first request
 // message without waiting for the end of the request stream.
 func c13HandlerEarly(kind Kind, rec *c13Recorder, early bool, opts ...connect.HandlerOption) *connect.Handler {
+	// one error value returned by every call that asks for it (X-Fail: -1), as a handler returning a
+	// package-level error does; it carries metadata from the start, the library only ever reads it
+	shared := connect.NewError(connect.CodeFailedPrecondition, errors.New("the shared failure"))
+	shared.Meta().Set("X-Err", "shared")
 	return NewHandler(kind, func(ctx context.Context, s HStream) error {
 		id := s.RequestHeader().Get("X-Call")
 		var got [][]byte
@@ -111,6 +115,9 @@ func c13HandlerEarly(kind Kind, rec *c13Recorder, early bool, opts ...connect.Ha
 		if code := s.RequestHeader().Get("X-Fail"); code != "" {
 			var c int
 			fmt.Sscan(code, &c)
+			if c < 0 {
+				return shared
+			}
 			e := connect.NewError(connect.Code(c), errors.New("failure of call "+id+" "+strings.Repeat(id, 40)))
 			e.Meta().Set("X-Err", id)
 			return e
@@ -277,7 +284,7 @@ func obsString(res CallResult) string {
 	if res.Err != nil {
 		var ce *connect.Error
 		if errors.As(res.Err, &ce) {
-			fmt.Fprintf(&sb, " err=%v:%s meta=%v", ce.Code(), ce.Message(), ce.Meta().Values("X-Err"))
+			fmt.Fprintf(&sb, " err=%v:%s meta=%v/%v/%v", ce.Code(), ce.Message(), ce.Meta().Values("X-Err"), ce.Meta().Values("X-Tr"), ce.Meta().Values("X-Echo"))
 		} else {
 			fmt.Fprintf(&sb, " err=%v", res.Err)
 		}
@@ -580,6 +587,9 @@ func c13Scenarios(thorough bool) []c13Case {
 	add("client-client", Cfg{Proto: PGRPC, Comp: CompDefault, Kind: KClient}, false, two, c13Call{Sizes: []int{7}})
 	add("server-server", Cfg{Proto: PConnect, Comp: CompSendGzip, Kind: KServer}, false, small, fail)
 	add("bidi-bidi", Cfg{Proto: PGRPCWeb, Comp: CompDefault, Kind: KBidi}, false, two, small)
+	// both calls fail with the same error value (the handler's own, with metadata), each with its own trailers
+	sharedFail := c13Call{Sizes: []int{4}, ErrCode: -1}
+	add("server-shared-error", Cfg{Proto: PConnect, Comp: CompDefault, Kind: KServer}, false, sharedFail, sharedFail)
 	add("one-bidi-send-recv", Cfg{Proto: PGRPC, Comp: CompDefault, Kind: KBidi}, true, two)
 	// one bidi stream, client sends and receives concurrently, full-duplex handler, compressed both ways
 	for _, p := range AllProtos {
@@ -598,6 +608,8 @@ func c13Scenarios(thorough bool) []c13Case {
 			add("t-server-err", Cfg{Proto: p, Comp: CompDefault, Kind: KServer}, false, fail, two)
 			add("t-one-bidi", Cfg{Proto: p, Comp: CompSendGzip, Kind: KBidi}, true, c13Call{Sizes: []int{5, 600, 0}})
 			add("t-custom", Cfg{Proto: p, Comp: CompCustom, Kind: KUnary}, false, small, mid)
+			add("t-shared-error", Cfg{Proto: p, Comp: CompDefault, Kind: KBidi}, false, sharedFail, sharedFail)
+			add("t-shared-error-unary", Cfg{Proto: p, Comp: CompDefault, Kind: KUnary}, false, sharedFail, small, sharedFail)
 		}
 		add("t-three-unary", Cfg{Proto: PConnect, Comp: CompSendGzip, Kind: KUnary}, false, small, mid, c13Call{Sizes: []int{40}})
 	}
